@@ -241,8 +241,67 @@ fn shape_ops<R: ModeTag, const B: Word>(ctx: &mut Ctx, lens: &[usize]) {
     ctx.require_classes(&name, inexact_classes(R::MODE));
 }
 
+/// long x long: every ordered pair of the long-significand patterns (digit counts from the list,
+/// both operands with exponent 0 and with the second one shifted), precision = the longer digit
+/// count (+0, +1, +8): mul, div, add, sub; and sqr / cubic / inv / sqrt of every pattern.  Digit
+/// counts estimated from bit lengths (digits_ub/digits_lb) are off by one next to a power of the
+/// base, the integer kernels below (Karatsuba sqrt, long division) switch with the word count.
+fn shape_pairs<R: ModeTag, const B: Word>(ctx: &mut Ctx, lens: &[usize]) {
+    let b = BigInt::from(B);
+    let mut sigs: Vec<(String, BigInt)> = vec![];
+    for &l in lens {
+        let top: BigInt = num_traits::Pow::pow(b.clone(), (l - 1) as u32);
+        let full: BigInt = &top * &b - BigInt::from(1);
+        sigs.push((format!("{}d:max", l), full.clone()));
+        sigs.push((format!("{}d:min+1", l), &top + BigInt::from(1)));
+        sigs.push((format!("{}d:max-1", l), &full - BigInt::from(1)));
+        if l >= 3 {
+            sigs.push((format!("{}d:half", l), &full / BigInt::from(2) + BigInt::from(1)));
+            // t^2 - 1 patterns in the top half: (B^(l/2) - 1) * B^(l - l/2) + 1
+            let h: BigInt = num_traits::Pow::pow(b.clone(), (l / 2) as u32);
+            let lo: BigInt = num_traits::Pow::pow(b.clone(), (l - l / 2) as u32);
+            sigs.push((format!("{}d:top-half-max", l), (&h - BigInt::from(1)) * &lo + BigInt::from(1)));
+        }
+    }
+    sigs.retain(|(_, s)| !(s % &b).is_zero() && !s.is_zero());
+    let ns = sigs.len() as u64;
+    let name = format!("shape.pairs.B{}.{}", B, R::MODE.name());
+    let sr = &sigs;
+    ctx.sweep(&name, ns * ns * 3, |i, rec| {
+        let [ia, ib, pi] = crate::h::unflatten(i, [ns, ns, 3]);
+        let ((ta, sa), (tb, sb)) = (&sr[ia], &sr[ib]);
+        let (la, lb) = (digits_b(sa, B as u32), digits_b(sb, B as u32));
+        let p = la.max(lb) + [0usize, 1, 8][pi];
+        let e2 = -((ib % 3) as i64) * (lb as i64 / 2);
+        let (ra, rb) = (mk_repr::<B>(sa, 0), mk_repr::<B>(&-sb.clone(), e2));
+        let (xa, xb) = (Rat::int(sa.clone()), Rat::scaled(&-sb.clone(), B as u32, e2));
+        let c = Context::<R>::new(p);
+        let desc = |op: &'static str| move || format!("base {} p={} {}: ({}) {} (-({})e{})", B, p, R::MODE.name(), ta, op, tb, e2);
+        check::<R, B>(rec, "mul", &desc("*"), p, &xa.mul(&xb), guard(|| c.mul(&ra, &rb)));
+        check::<R, B>(rec, "div", &desc("/"), p, &xa.div(&xb), guard(|| c.div(&ra, &rb)));
+        check::<R, B>(rec, "add", &desc("+"), p, &xa.add(&xb), guard(|| c.add(&ra, &rb)));
+        check::<R, B>(rec, "sub", &desc("-"), p, &xa.sub(&xb), guard(|| c.sub(&ra, &rb)));
+        rec.hit(if la < lb { "dividend-shorter" } else if la == lb { "same-length" } else { "dividend-longer" });
+        if ib == 0 {
+            // unary operations of the first operand, also as the square root of a shifted value
+            let ud = |op: &'static str| move || format!("base {} p={} {}: {}({})", B, p, R::MODE.name(), op, ta);
+            check::<R, B>(rec, "sqr", &ud("sqr"), p, &xa.mul(&xa), guard(|| c.sqr(&ra)));
+            check::<R, B>(rec, "cubic", &ud("cubic"), p, &xa.mul(&xa).mul(&xa), guard(|| c.cubic(&ra)));
+            check::<R, B>(rec, "inv", &ud("inv"), p, &Rat::from_i(1).div(&xa), guard(|| c.inv(&ra)));
+            check::<R, B>(rec, "sqrt", &ud("sqrt"), p, &SqrtOf(xa.clone()), guard(|| c.sqrt(&ra)));
+            let r1 = mk_repr::<B>(sa, 1);
+            check::<R, B>(rec, "sqrt", &ud("sqrt(B*)"), p, &SqrtOf(Rat::scaled(sa, B as u32, 1)), guard(|| c.sqrt(&r1)));
+            rec.hit("unary");
+        }
+        rec.nontrivial();
+        rec.sample(|| desc("(*,/,+,-)")());
+    });
+    ctx.require_classes(&name, &["dividend-shorter", "same-length", "dividend-longer", "unary"]);
+    ctx.require_classes(&name, inexact_classes(R::MODE));
+}
+
 pub fn run(ctx: &mut Ctx) {
-    ctx.rule = "for every base, mode and precision p in the listed sets: all ordered operand pairs (a, b) from the closed universes F(B,P,E) = { s*B^e : |s| < B^P, |e| <= E } whose digit counts fit p (quick: one operand ranges over the full exponent range, the other over |e| <= 1, both orders) through Context::{add,sub,mul,div}, and all single operands through sqr/cubic/inv/sqrt; each (value, flag) judged against the exact rational result (sqrt: exact comparison of squares) by the rounding contract of the property. non-trivial = both operands non-zero".into();
+    ctx.rule = "for every base, mode and precision p in the listed sets: all ordered operand pairs (a, b) from the closed universes F(B,P,E) = { s*B^e : |s| < B^P, |e| <= E } whose digit counts fit p (quick: one operand ranges over the full exponent range, the other over |e| <= 1, both orders) through Context::{add,sub,mul,div}, and all single operands through sqr/cubic/inv/sqrt; plus shape universes of long significands (digit counts up to 257 bits / 78 decimal digits quick, 1025 / 309 thorough; patterns all-max, min+1, max-1, half, top-half-max): long x short with every exponent gap around the precision, and all ordered long x long pairs with the unary operations; each (value, flag) judged against the exact rational result (sqrt: exact comparison of squares) by the rounding contract of the property. non-trivial = both operands non-zero".into();
     ctx.assume("exact rational arithmetic on num_bigint::BigInt is the reference; the contract judged is exactly the property statement (ties in half modes are not judged beyond <= 1/2 ulp)");
     // self-check of the judge on hand-computed cases
     {
@@ -303,6 +362,17 @@ pub fn run(ctx: &mut Ctx) {
         for_all_modes!(shape_ops, 3, (ctx, &l3));
         let l16: Vec<usize> = vec![1, 2, 8, 16, 17];
         for_all_modes!(shape_ops, 16, (ctx, &l16));
+    }
+    // long x long pairs and unary operations on long significands
+    let q2: Vec<usize> = if quick { vec![3, 20, 21, 64, 65, 192, 257] } else { vec![3, 8, 19, 20, 21, 24, 33, 53, 64, 65, 128, 129, 192, 193, 256, 257, 384, 449, 513, 1025] };
+    for_all_modes!(shape_pairs, 2, (ctx, &q2));
+    let q10: Vec<usize> = if quick { vec![3, 6, 7, 8, 19, 20, 78] } else { vec![3, 5, 6, 7, 8, 9, 10, 19, 20, 21, 38, 39, 58, 59, 78, 116, 155, 309] };
+    for_all_modes!(shape_pairs, 10, (ctx, &q10));
+    if !quick {
+        let q3: Vec<usize> = vec![3, 13, 14, 40, 41, 81, 122, 163];
+        for_all_modes!(shape_pairs, 3, (ctx, &q3));
+        let q16: Vec<usize> = vec![3, 5, 6, 16, 17, 48, 65];
+        for_all_modes!(shape_pairs, 16, (ctx, &q16));
     }
     ctx.bound("bases", serde_json::json!(if quick { vec![2, 10, 3, 16] } else { vec![2, 10, 3, 16, 36] }));
 }
